@@ -1,0 +1,16 @@
+//go:build verif
+
+// Contracts for package tlstcp (comment-only; read by /verif/govc).
+
+package tlstcp
+
+//@ struct dialer
+//@   lock lock level 50
+//@   guarded_by lock: maxRecvSize config
+//@   immutable: addr proto hs d
+//@
+//@ struct listener
+//@   lock lock level 50
+//@   guarded_by lock: maxRecvSize config
+//@   immutable: addr proto hs closeQ
+//@   racy: l bound because written by Listen and read by Accept/Address/Close outside the lock; no consistent discipline in the code (outside the guard sweep)
